@@ -2,7 +2,7 @@
    Property theorems only: each is closed by `exact <lemma>`; Print Assumptions must report a closed term. *)
 From Coq Require Import List Bool Arith.
 Import ListNotations.
-Require Import PonyV.Model.C03Bexp PonyV.Proofs.C03Checker PonyV.Model.C03Decomp PonyV.Model.C03Family PonyV.Proofs.C03Roundtrip PonyV.Proofs.C03RoundtripCnf PonyV.Proofs.C03CompileSound
+Require Import PonyV.Model.C03Bexp PonyV.Proofs.C03Checker PonyV.Model.C03Decomp PonyV.Model.C03Family PonyV.Proofs.C03Roundtrip PonyV.Proofs.C03RoundtripCnf PonyV.Proofs.C03RoundtripIf PonyV.Proofs.C03CompileSound
                PonyV.Model.C03Cache PonyV.Proofs.C03CacheProofs PonyV.Gen.C03CacheKey.
 
 (* The oracle the harness uses to judge every output of the real decompiler: if the truth-table checker accepts a pair
@@ -69,6 +69,13 @@ Example C03_andor_partial_cnf_nonvacuous :
     And [Or [Atom 0; Not (Atom 1)]; Atom 2; Or [Not (Atom 3); Atom 4; Atom 5]].
 Proof. reflexivity. Qed.
 
+(* A family with a conditional expression, in ELEMENT position: (xa if t1 and ... and tn else xb for x in T), any n >= 1,
+   comes back as exactly itself (partial + full process_target of JUMP_FORWARD, classification by jump sense after
+   conditions_end).  Most other combinations of if-else with and/or/not are refuted (Findings/C03.v). *)
+Theorem C03_ifexp_partial : forall ts xa xb, ts <> [] -> decompile PElt (if_and ts xa xb) = Some (if_and ts xa xb).
+Proof. exact roundtrip_if_and. Qed.
+Print Assumptions C03_ifexp_partial.
+
 (* non-vacuity: `a and not b or c or not d and e and g` is in the family, and its stream has 12 instructions + 2 *)
 Example C03_andor_partial_nonvacuous :
   wf_alts [[Lit false 0; Lit true 1]; [Lit false 2]; [Lit true 3; Lit false 4; Lit false 5]] /\
@@ -80,15 +87,21 @@ Proof. split; [split; [discriminate | repeat constructor; discriminate] | split;
 (* ------------------------------------------------------------------------------------------------------------------
    Sanity of the code-generation model (the model of CPython, which is otherwise only compared with `dis`): executing the
    compiled stream gives the meaning of the source - the truth value decides between yielding and skipping the element
-   at the three filter positions, the value is what is yielded / returned at the element and lambda positions - for every
-   expression over names, constants, not, and, or, ==, !=, is (not) None of any nesting (`simple`: no conditional
-   expression, whose JUMP_FORWARDs go through jump threading - that part is only checked by vm_compute on every run). *)
-Theorem C03_compile_sound : forall ps e rho, simple e = true -> run_code rho (compile ps e) = meaning ps rho e.
-Proof. exact compile_sound_simple. Qed.
+   at the three filter positions, the value is what is yielded / returned at the element and lambda positions - for EVERY
+   expression of the fragment: names, constants, not, and, or, ==, !=, is (not) None and conditional expressions, of any
+   nesting (`wfe`: only the empty and/or, which Python cannot write, is excluded).  The JUMP_FORWARDs of conditional
+   expressions go through CPython's jump threading, which is proved to preserve the meaning of any stream (exec_thread). *)
+Theorem C03_compile_sound : forall ps e rho, wfe e = true -> run_code rho (compile ps e) = meaning ps rho e.
+Proof. exact compile_sound_full. Qed.
 Print Assumptions C03_compile_sound.
 
+Theorem C03_thread_sound : forall rho code f pc stk,
+  exec f rho code pc stk <> OStuck -> exec f rho (thread code) pc stk = exec f rho code pc stk.
+Proof. exact exec_thread. Qed.
+Print Assumptions C03_thread_sound.
+
 Example C03_compile_sound_nonvacuous :
-  simple (Or [And [Atom 0; Not (Cmp false (Atom 1) (And [Atom 2; Const VNone]))]; IsNone true (Atom 3)]) = true.
+  wfe (Or [And [Atom 0; Not (Cmp false (Atom 1) (IfExp (Atom 2) (And [Atom 3; Const VNone]) (Atom 4)))]; IsNone true (Atom 3)]) = true.
 Proof. reflexivity. Qed.
 
 (* ------------------------------------------------------------------------------------------------------------------
